@@ -64,7 +64,7 @@ def cases(tier, seed, shard, nshards):
                 yield {"k": "enum", "text": render(combo)}
             idx += 1
     r = rng_for(seed, shard, "c09")
-    n = tier_pick(tier, 16000, 400000) // nshards
+    n = tier_pick(tier, 32000, 1600000) // nshards
     for i in range(n):
         o = grammar.Opts(max_items=8, min_items=2, entry_keys=["a", "b"], string_keys=["a", "b", "c"],
                          field_keys=["t", "u", "T"], kinds=("entry", "entry", "entry", "string", "string", "ecomment", "icomment"))
